@@ -8,7 +8,7 @@
    Model (model/WalkModel.v): `read_files` = readFiles of reader.go (callback `walk_fn`, trimPath, the three
    skip lists) driven by the fastwalk interface stated at the top of that file. *)
 From Coq Require Import Permutation.
-From Fzf Require Import Prelude WalkSpec WalkModel WalkProofs.
+From Fzf Require Import Prelude WalkSpec WalkModel WalkProofs WalkLinkSpec WalkLinkProofs.
 Open Scope Z_scope.
 
 (* ★ For ALL option sets, skip lists, roots and trees: the model never fails and pushes exactly the spec's
@@ -118,4 +118,72 @@ Proof.
     + repeat constructor; try discriminate; cbn; intuition discriminate.
   - split; repeat constructor; cbn; intuition discriminate.
   - vm_compute. reflexivity.
+Qed.
+
+(* ---- directory worlds with link CYCLES (spec/WalkLinkSpec.v) ----
+   The world is a graph of numbered directories; `unfold fuel g path l` is the finite tree a walker that follows
+   links may see: a link whose target is a directory the path has already gone through (path: numbers of the
+   link's textual ancestors, root and the directories of a relative root string included) is a leaf. *)
+
+(* fuel only bounds the depth: once the unfolding exists it is the same for every larger fuel *)
+Theorem unfold_fuel_irrelevant : forall f f' g path l t,
+  (f <= f')%nat -> unfold f g path l = Some t -> unfold f' g path l = Some t.
+Proof. exact unfold_fuel_irrelevant_proof. Qed.
+Print Assumptions unfold_fuel_irrelevant.
+
+(* ★ a link that leads back to a directory on its own path is never entered ... *)
+Theorem cycle_link_is_leaf : forall below g path nm id,
+  on_path id path = true -> unfold_ent below g path (GSymDir nm id) = Some (SymDir nm []).
+Proof. exact cycle_link_is_leaf_proof. Qed.
+Print Assumptions cycle_link_is_leaf.
+
+(* ★ ... and is listed exactly once: under follow as LINK/ (when `file` and not pruned), nothing below it *)
+Theorem cycle_link_listed_once : forall o ig d nm,
+  list_entry o ig d (SymDir nm []) =
+    if o_follow o then
+      if pruned o ig (child d nm) nm then [] else emit (o_file o) (with_sep (child d nm))
+    else emit (o_file o) (child d nm).
+Proof. exact cycle_link_listed_once_proof. Qed.
+Print Assumptions cycle_link_listed_once.
+
+(* ★ however the links are laid out, no branch of the unfolding goes through more followed links than there are
+   directories it has not visited yet: no lap is ever walked twice, the listing is finite whatever the fuel *)
+Theorem link_depth_bounded : forall f g path l t,
+  unfold f g path l = Some t -> Forall (fun e => (link_depth e <= fresh_dirs g path)%nat) t.
+Proof. exact link_depth_bounded_proof. Qed.
+Print Assumptions link_depth_bounded.
+
+Theorem link_depth_le_dirs : forall f g path l t,
+  unfold f g path l = Some t -> Forall (fun e => (link_depth e <= length g)%nat) t.
+Proof. exact link_depth_le_dirs_proof. Qed.
+Print Assumptions link_depth_le_dirs.
+
+(* ★ the walker model on a cyclic world pushes exactly the spec's listing of the finite unfolding *)
+Theorem walk_eq_listing_cyclic : forall o ig f g path root id t,
+  gworld_ok g -> root_ok root ->
+  unfold f g path (content g id) = Some t ->
+  read_files o ig [(root, t)] = Ok (listing_roots o ig [(root, t)]).
+Proof. exact walk_eq_listing_cyclic_proof. Qed.
+Print Assumptions walk_eq_listing_cyclic.
+
+(* non-vacuity: directory 0 = { top.txt, self -> ., src/ = directory 1 = { main.c, up -> .. } }, walked from "."
+   (path [0]): both links lead back, both are leaves, each is listed once; an outside directory 2 = { f } reached by
+   the link out -> 2 IS entered, and its link back -> 0 is a leaf again. *)
+Definition ex_world : gworld :=
+  [ (0%nat, [GFile [116]; GSymDir [115] 0; GDir [100] 1; GSymDir [111] 2]);
+    (1%nat, [GFile [109]; GSymDir [117] 0]);
+    (2%nat, [GFile [102]; GSymDir [98] 0]) ].
+Example c19_cyclic_nonvacuous :
+  gworld_ok ex_world /\
+  unfold 3 ex_world [0%nat] (content ex_world 0) =
+    Some [File [116]; SymDir [115] []; Dir [100] [File [109]; SymDir [117] []];
+          SymDir [111] [File [102]; SymDir [98] []]] /\
+  (forall t, unfold 3 ex_world [0%nat] (content ex_world 0) = Some t ->
+     read_files (mkOpts true true true true) [] [([DOT], t)] =
+       Ok [[116]; [115;47]; [100;47]; [100;47;109]; [100;47;117;47]; [111;47]; [111;47;102]; [111;47;98;47]]).
+Proof.
+  split; [|split].
+  - repeat constructor; cbn; try discriminate; intuition discriminate.
+  - vm_compute. reflexivity.
+  - intros t H. vm_compute in H. injection H as <-. vm_compute. reflexivity.
 Qed.
